@@ -38,6 +38,8 @@ func returnsWALBatch(fn *types.Func) bool {
 }
 
 func runC02(c *Ctx) {
+	defer c11MarkDirty(c, "C02.39")
+	defer ruleBatchNotOverwritten(c, "C02.38")
 	c02LogBeforeAck(c, "C02.1")
 	c02DurableAppend(c, "C02.2")
 	c02FreshLSN(c, "C02.3")
@@ -74,6 +76,7 @@ func runC02(c *Ctx) {
 	ruleErrorsWrappedWithW(c, "C02.35")
 	c.Rule("C02.36", "pages reach the data file only through the flush: the data file is written only by (*os.File).WriteAt calls inside the exclusive section of the flush (or reached only from it / from CREATE DATABASE before the database exists) — a page written at allocation time, outside the flush, is on disk with an offset the header and the log know nothing about; redo then re-creates split pages at other offsets than the logged catalog update names")
 	checkDataFileWrites(c, "C02.36")
+	ruleReadRecordOwnsPayload(c, "C02.37")
 	ruleErrorsNotDropped(c, "C02.16", "storage.(*BTree).insert", "storage.(*RelationService).Insert", "storage.(*RelationService).MarkDeleted", "storage.(*RelationService).FlushWALBatch")
 }
 
@@ -1021,6 +1024,38 @@ func raisesCounterToRecordKey(f *Func, arm ast.Node, row types.Object) bool {
 	return found
 }
 
+// raisesCounterBeforeSkip: a guarded raise of lastKey to <row>.cellID sits in the replay loop at a point every record
+// passes — the test that guards it dominates the skip test (the comparison of the record's LSN with the page's).
+func raisesCounterBeforeSkip(f *Func, ri *replayInfo, row types.Object) bool {
+	g := f.Graph()
+	skipLoc, ok := g.Locate(ri.guard.Cond)
+	if !ok {
+		return false
+	}
+	found := false
+	ast.Inspect(ri.rng.Body, func(x ast.Node) bool {
+		ifs, ok := x.(*ast.IfStmt)
+		if !ok {
+			return true
+		}
+		for _, st := range ifs.Body.List {
+			as, ok := st.(*ast.AssignStmt)
+			if !ok || as.Tok != token.ASSIGN || len(as.Lhs) != 1 || len(as.Rhs) != 1 {
+				continue
+			}
+			sel, ok := ast.Unparen(as.Lhs[0]).(*ast.SelectorExpr)
+			if !ok || sel.Sel.Name != "lastKey" || !isFieldOf(f, as.Rhs[0], row, "cellID") || !guardedRaise(f, g, as) {
+				continue
+			}
+			if cl, ok := g.Locate(ifs.Cond); ok && g.Dominates(cl, skipLoc) {
+				found = true
+			}
+		}
+		return true
+	})
+	return found
+}
+
 // guardedRaise: at the assignment `L = R`, `R > L` (or `R >= L`) is implied by a branch condition on every path.
 func guardedRaise(f *Func, g *Graph, as *ast.AssignStmt) bool {
 	loc, ok := g.Locate(as)
@@ -1065,8 +1100,14 @@ func redoArmMatches(f *Func, ri *replayInfo, arm *ast.BlockStmt, kind string) (b
 				// behind the ids that refused inserts consumed before the crash (BTree.insert advances the counter
 				// whether or not the insert was accepted): the next INSERT after recovery is refused with
 				// "record already exists" (defect D23).
+				// … and it must cover the key of a record that is SKIPPED as well: the page that carries the record's LSN
+				// can be on disk while the header that counts its row id is not (a flush that died between its page
+				// writes and the header write — defect D26). The raise therefore sits in front of the skip test.
+				if ri.rng != nil && ri.guard != nil && raisesCounterBeforeSkip(f, ri, row) {
+					return true, "insertKey(record.cellID, record.LSN, record.val) on the tree rooted at the record's page; row-id counter raised to the record's key for every insert record, skipped or not"
+				}
 				if raisesCounterToRecordKey(f, arm, row) {
-					return true, "insertKey(record.cellID, record.LSN, record.val) on the tree rooted at the record's page; row-id counter raised to the record's key"
+					return false, "redo raises the row-id counter to the record's key only for the records it does not skip: after a flush that died between its page writes and the header write the counter stays behind the rows that are on disk, and the next INSERT after recovery fails with 'record already exists'"
 				}
 				if len(f.Calls(arm, false, "storage.*.incrementLastKey")) != 0 {
 					return false, "redo of an insert counts one row id per replayed record instead of raising the counter to the record's key: ids that refused inserts consumed before the crash are handed out again and the next INSERT after recovery fails with 'record already exists'"
